@@ -19,48 +19,30 @@ type MemoryHeightIterator struct {
 }
 
 func NewMemoryHeightIterator(dataset map[string]string, start string, end string, sortedKeys []string, ascending bool) *MemoryHeightIterator {
-	if start != "" || end != "" {
-		if start != "" && end != "" && start > end { // start has to be smaller than end!
-			return &MemoryHeightIterator{endIdx: -1, startIdx: 1}
-		}
-	}
-	if start > end {
-		tmp := start
-		start = end
-		end = tmp
-	}
 	if len(sortedKeys) == 0 {
 		sortedKeys = make([]string, 0, len(dataset))
-		for k, _ := range dataset {
+		for k := range dataset {
 			sortedKeys = append(sortedKeys, k)
 		}
 		sort.Strings(sortedKeys)
 	}
+
+	// The domain is [start, end); an empty bound means unbounded on that side.
+	// startIdx is the first key >= start, endIdx the last key < end (inclusive indices).
 	startIdx := 0
-	if start != "" { // this is a risky assumption -- what's the diff between string([]bytes{}) and (string[]bytes(nil)) ? those are considered smallest and largest by iavl.
-		for ; startIdx < len(sortedKeys)-1; startIdx++ {
-			if sortedKeys[startIdx] >= start {
-				break
-			}
-		}
+	if start != "" {
+		startIdx = sort.SearchStrings(sortedKeys, start)
 	}
 	endIdx := len(sortedKeys) - 1
 	if end != "" {
-		for ; endIdx > 0 && endIdx > startIdx; endIdx-- {
-			if sortedKeys[endIdx] <= end {
-				break
-			}
-		}
+		endIdx = sort.SearchStrings(sortedKeys, end) - 1
 	}
+
 	curIdx := startIdx
 	if !ascending {
 		curIdx = endIdx
 	}
-	// the start string, if not null, should be somewhere
-	// the end string, if not null, should be somewhere _after_ the start string
-	// curIdx is calculated to be just before the start string
-	// start and end strings should be calculated if nil
-	// start and end indices of course, too
+
 	return &MemoryHeightIterator{
 		dataset:    dataset,
 		sortedKeys: sortedKeys,
@@ -78,20 +60,10 @@ func (m *MemoryHeightIterator) Domain() (start []byte, end []byte) {
 }
 
 func (m *MemoryHeightIterator) Valid() bool {
-	if m.endIdx < m.startIdx || m.curIdx > m.endIdx {
-		return false
-	}
-	if (m.end != "" && m.sortedKeys[m.curIdx] >= m.end) || (m.start != "" && m.sortedKeys[m.curIdx] < m.start) {
-		return false
-	}
 	if m.sortedKeys == nil || m.dataset == nil {
 		return false // we closed!!
 	}
-	if m.curIdx < 0 || m.curIdx > len(m.sortedKeys)-1 {
-		return false // out of range!
-	}
-	return true
-
+	return m.curIdx >= m.startIdx && m.curIdx <= m.endIdx
 }
 
 func (m *MemoryHeightIterator) Next() {
